@@ -3,7 +3,11 @@
 Usage: mk_points.py <PROP> <dumped-keys-file>.  Prints keys no rule claims (these need a decision by hand)."""
 import re, sys, json, os
 prop, dump = sys.argv[1], sys.argv[2]
-keys = sorted(set(l.rstrip('\n') for l in open(dump) if l.strip()))
+keys = set(l.rstrip('\n') for l in open(dump) if l.strip())
+import glob
+for f in glob.glob(f'/verif/known/KF-{prop}-*.keys'):      # keys already listed stay listed (the dump holds unlisted keys only)
+    keys |= set(l.rstrip('\n') for l in open(f) if l.strip() and not l.startswith('#'))
+keys = sorted(keys)
 CONST = r'(typed-const|untyped-\w+-const|nil)'
 RULES = {
  "C01": [
@@ -17,6 +21,14 @@ RULES = {
    "shifts accept a float shifted operand, a negative constant count and overflowing typed constant results", "builtin_gengo.go Lsh/Rsh, ast.go doBinaryOp"),
   ("KF-C01-5", "conversion-accepts-unconvertible-operands", r'^accepted-although-\w+/conversion ',
    "T(x) is emitted without checking convertibility or constant representability (int(\"s\"), int8(300), string(1.5), T(nil))", "ast.go matchTypeCast finish path"),
+  ("KF-C01-7", "multi-value-call-accepted-inside-a-value-list", r'^accepted-although-multi-value-in-list/',
+   "f(), x on the right-hand side of :=, =, var or return (a multi-value call among several values) is accepted", "type_var_and_const.go endInit / codebuild.go doAssignWith count by operands"),
+  ("KF-C01-8", "define-accepts-no-new-variable-when-a-blank-is-present", r'^accepted-although-no-new-variables/',
+   "_ := v and x, _ := ... (no new non-blank variable on the left of :=) are accepted: the blank identifier counts as new", "type_var_and_const.go newValueDecl: scope.Lookup(\"_\") == nil"),
+  ("KF-C01-9", "define-accepts-a-repeated-name", r'^accepted-although-repeated-name/',
+   "n, n := a, b is accepted (Go: n repeated on left side of :=)", "type_var_and_const.go newValueDecl"),
+  ("KF-C01-10", "untyped-nil-accepted-without-a-type", r'^accepted-although-untyped-nil/',
+   "x := nil, var x = nil and _ = nil are accepted and emitted (Go: use of untyped nil)", "type_var_and_const.go endInit (DefaultConv of untyped nil), codebuild.go doAssignWith"),
   ("KF-C01-6", "comparison-accepts-mismatched-or-unrepresentable-operands", r'^accepted-although-(mismatched|notrepresentable)/(equality|ordering) \[.*var',
    "== / != / < with a variable accept mismatched defined types (MyInt == int) and untyped constants not representable in the variable's type (v_int8 == 300)", "template.go ComparableTo / untypedComparable (see C05 findings 4-6)"),
  ],
